@@ -209,6 +209,9 @@ func GenAction(t *rapid.T, p *Profile, cfg *Config, ops []string) Action {
 		}
 	case "iter":
 		a.N = rapid.IntRange(0, 4).Draw(t, "which")
+		if rapid.IntRange(0, 2).Draw(t, "late") == 0 {
+			a.Dur = genDur(t, p, "latedur")
+		}
 	case "setmaximum":
 		a.N = rapid.IntRange(0, 12).Draw(t, "newmax")
 	case "advance":
